@@ -124,7 +124,7 @@ class Run:
             "violations": self.violations,
         }
         p = os.path.join(ROOT, "evidence", "%s.json" % self.pid)
-        if os.path.realpath(REPO) != "/repo":
+        if os.path.realpath(REPO) != "/repo" or self.pid.startswith("X"):   # growth modules are not listed properties
             p = self.path("evidence-%s.json" % self.pid)   # scratch copies (mutation runs) never touch evidence/
         with open(p + ".tmp", "w") as f:
             json.dump(ev, f, indent=1, default=str)
